@@ -1,6 +1,9 @@
 package c18
 
 import (
+	"fmt"
+	"runtime/debug"
+	"strings"
 	"testing"
 
 	"go.lstv.dev/util/date"
@@ -19,9 +22,54 @@ var coldScenarios = []string{
 	"roman.Valid", "roman.DefaultParser[[]byte]", "roman.UnmarshalText(empty)", "roman.Format(lower)",
 	"date.UnmarshalBinary", "date.DefaultParser(basic)", "date.Scan", "date.Format",
 	"size.UnmarshalJSON(object)", "size.DefaultParser(text)", "size.New[float32]", "size.PrettyHTML",
+	"size: unknown member nested 1,000,000 levels, stack limited to 16 MiB", "size: value member nested 1,000,000 levels, stack limited to 16 MiB", "all packages: 4 MiB inputs, stack limited to 16 MiB",
+}
+
+// deepCalls: inputs whose structure is as deep or as long as the disabled limits allow, parsed in a process whose goroutine
+// stacks may not exceed 16 MiB (debug.SetMaxStack): stack use that grows with the input is a crash waiting for a large
+// enough input, and a stack overflow cannot be recovered from - hence the child process.
+func deepCalls(scenario string) {
+	debug.SetMaxStack(16 << 20)
+	a, b, c, d, e := size.MaxInputLength, sem.MaxInputLength, roman.MaxInputLength, date.MaxInputLength, uu.MaxInputLength
+	defer func() {
+		size.MaxInputLength, sem.MaxInputLength, roman.MaxInputLength, date.MaxInputLength, uu.MaxInputLength = a, b, c, d, e
+	}()
+	size.MaxInputLength, sem.MaxInputLength, roman.MaxInputLength, date.MaxInputLength, uu.MaxInputLength = 0, 0, 0, 0, 0
+	const depth = 1000000
+	switch scenario {
+	case "size: unknown member nested 1,000,000 levels, stack limited to 16 MiB":
+		for _, nest := range []string{strings.Repeat("[", depth) + strings.Repeat("]", depth), strings.Repeat(`{"a":`, depth) + "1" + strings.Repeat("}", depth)} {
+			s, err := size.DefaultParser(`{"x":`+nest+`,"value":3,"unit":"KiB"}`, size.RuleEnableJSONObjectForm)
+			if err != nil || s != 3072 {
+				panic(fmt.Sprintf("unknown member nested %d levels: %d, %v", depth, uint64(s), err))
+			}
+			var u size.Size
+			_ = u.UnmarshalJSON([]byte(`{"value":3,"unit":"KiB","x":` + nest + `}`))
+		}
+	case "size: value member nested 1,000,000 levels, stack limited to 16 MiB":
+		_, _ = size.DefaultParser(`{"value":`+strings.Repeat("[", depth)+strings.Repeat("]", depth)+`}`, size.RuleEnableJSONObjectForm|size.RuleEnableJSONStringForm)
+		_, _ = size.DefaultParser(strings.Repeat("[", depth), size.RuleEnableJSONObjectForm)
+		_, _ = size.DefaultParser(strings.Repeat(`{"value":`, depth), size.RuleEnableJSONObjectForm)
+	default:
+		const n = 4 << 20
+		_, _ = roman.DefaultParser(strings.Repeat("M", n)+"CDXLIV", 0)
+		_ = roman.Valid(strings.Repeat("m", n), 0)
+		_, _ = roman.DefaultFormatter(nil, 2000000, 0)
+		_, _ = sem.Parse("1.2.3-" + strings.Repeat("a.", n/2) + "b")
+		_, _ = sem.Compare("1.2.3-"+strings.Repeat("1.", n/2)+"1", "1.2.3-"+strings.Repeat("1.", n/2)+"2")
+		_ = sem.Ver{PreRelease: strings.Repeat("a.", n/2) + "b", Build: strings.Repeat("-", n)}.Valid()
+		_, _ = date.DefaultParser(strings.Repeat("9", n)+"-01-01", 0)
+		_, _ = uu.DefaultParser(strings.Repeat("urn:uuid:", n/9), 0)
+		_, _ = size.DefaultParser(strings.Repeat("1 ", n/2)+"kB", 0)
+		_, _ = size.DefaultParser(`"`+strings.Repeat("1_", n/2)+`0"`, size.RuleEnableJSONStringForm)
+	}
 }
 
 func firstCall(scenario string) {
+	if strings.Contains(scenario, "stack limited") {
+		deepCalls(scenario)
+		return
+	}
 	switch scenario {
 	case "sem.Valid(build only)":
 		_ = sem.Ver{Major: 1, Build: "b.1"}.Valid()
